@@ -18,6 +18,7 @@ CONSTANTS
   AllowDrop = FALSE
   AllowBnShare = TRUE
   PlainOps = {"add"}
+  Biases = {TRUE}
   AllowFindings = FALSE
   MaxHist = 1
 VIEW ViewNoHist
